@@ -62,13 +62,14 @@ const (
 // same Store contract as the indexer driver: calldata of (key,value) pairs -> SSTORE + LOG1; 1 byte -> SELFDESTRUCT; 2 bytes -> REVERT
 var storeRuntime = common.FromHex("0x366001146034573660021460375760005b8036111560325780602001358135808290559060005260206000a16040016010565b005b33ff5b60006000fd")
 
-func storeInit(pairs [][2]int64) []byte {
-	// constructor: SSTORE the given pairs, then return the runtime code
+func storeInit(pairs [][2]int64, variant int) []byte {
+	// constructor: SSTORE the given pairs, then return the runtime code (variant: trailing STOP bytes, so that
+	// contracts with different code and contracts sharing one code hash both occur)
 	var pre []byte
 	for _, p := range pairs {
 		pre = append(pre, 0x60, byte(p[1]), 0x60, byte(p[0]), 0x55) // PUSH1 v PUSH1 k SSTORE
 	}
-	rt := storeRuntime
+	rt := append(append([]byte{}, storeRuntime...), make([]byte, variant)...)
 	off := len(pre) + 11
 	init := append(pre, 0x60, byte(len(rt)), 0x80, 0x60, byte(off), 0x60, 0x00, 0x39, 0x60, 0x00, 0xf3)
 	return append(init, rt...)
@@ -190,8 +191,8 @@ func (h *hist) flush() {
 
 func (h *hist) op() {
 	r := h.r
-	kinds := []string{"deploy_store", "deploy_store", "store_write", "store_write", "store_write", "store_write", "selfdestruct", "codeless_storage", "erc20_by_msg", "approve", "approve",
-		"staking_by_msg", "vauth_proof", "transfer", "revert"}
+	kinds := []string{"deploy_store", "deploy_store", "store_write", "store_write", "store_write", "store_write", "selfdestruct", "selfdestruct", "codeless_storage", "erc20_by_msg", "erc20_by_msg",
+		"approve", "approve", "approve", "staking_by_msg", "vauth_proof", "transfer", "revert"}
 	k := kinds[r.Intn(len(kinds))]
 	if len(h.ops) == 0 && r.Chance(80) {
 		k = "deploy_store"
@@ -201,7 +202,7 @@ func (h *hist) op() {
 	case "deploy_store":
 		n := h.nonce(a)
 		addr := a.ComputeContractAddress(n)
-		h.eth(a, nil, 400000, storeInit(pairs(r, r.Intn(3))), func(ok bool) {
+		h.eth(a, nil, 400000, storeInit(pairs(r, r.Intn(3)), r.Intn(3)), func(ok bool) {
 			if ok {
 				h.stores = append(h.stores, addr)
 			}
@@ -316,7 +317,7 @@ type gdriver struct {
 func TestDriverGenesis(t *testing.T) {
 	dir := OutDir(t)
 	seed := EnvSeed()
-	n := EnvInt("VERIF_N", 12)
+	n := EnvInt("VERIF_N", 60)
 	rng := NewRng(seed)
 	side := NewSidecar("genesis", seed,
 		"case = (cpc genesis flags, generated history of 3-14 operations on chain A) -> export -> fresh app B by InitChain -> stores compared -> second export; GImport cases = import of a document with each flag combination; "+
